@@ -765,6 +765,13 @@ struct Tracker {
     double tMax = -Infinity; char tMaxKind = 0;
     std::vector<double> allReports, listExpect; size_t nextL = 0;      // every report time the integrator is ever given; driver 2: the list reporter's times
     double lastW0 = NaN, lastW1 = NaN, lastKnownR = NaN;               // window of the last handled triggered event and the report time known when it was localised
+    const std::vector<Entry>* all = nullptr; size_t pos = 0;          // the whole trace and the position of the entry being fed
+    // handler i is invoked later in the trace at the very same instant (several handlers run in one handleEvents call)
+    bool invokedLaterAtSameTime(int i, double t) const {
+        if (!all) return false;
+        for (size_t k = pos + 1; k < all->size() && (*all)[k].t == t; ++k) if ((*all)[k].kind == 'T' && (*all)[k].idx == i) return true;
+        return false;
+    }
     const double tolx; const char* oracleName;
     Tracker(const Scn& sc, Judge& J, double tEnd) : sc(sc), J(J), tEnd(tEnd), tolx(sc.integ >= 8 ? TOLX_CPODES : TOLX_ABSTRACT), oracleName(sc.integ >= 8 ? "track-state-cpodes" : "track-state-abstract") {
         seg = {sc.t0, sc.q0, sc.u0, sc.z0, 0}; before = seg;
@@ -795,7 +802,7 @@ struct Tracker {
     bool monitored(int i) const { return (sc.wits[i].mask & (sc.wits[i].orient > 0 ? 1 : 2)) != 0; }
     void missesBefore(double t, char kind, int idx) {
         for (int i = 0; i < (int)tc.size(); ++i) {
-            if (handled[i] || !monitored(i) || (kind == 'T' && idx == i)) continue;
+            if (handled[i] || !monitored(i) || (kind == 'T' && idx == i) || invokedLaterAtSameTime(i, t)) continue;
             if (tc[i] + sc.tolOf(i) * (1 + 1e-9) + EPS_T < t) {
                 handled[i] = 2;
                 J.check(false, "crossing-not-handled", [&] { return "witness " + std::to_string(i) + " crossed at " + verif::fmtd(tc[i]) + " (own window " + verif::fmtd(sc.tolOf(i)) + ") but its handler had not been invoked when the trace reached t=" + verif::fmtd(t); });
@@ -900,8 +907,8 @@ struct Tracker {
 // ---------------------------------------------------------------- one simulation of a second-generation scenario
 static void judgeTrace(const Scn& sc, Judge& J, const std::vector<Entry>& trace, double tEnd, uint64_t& outcome) {
     J.note("  trace: %s\n", traceStr(trace).c_str());
-    Tracker T(sc, J, tEnd);
-    for (auto& e : trace) { T.feed(e); outcome = verif::hashPod(e.idx, verif::hashPod(e.kind, outcome)); }
+    Tracker T(sc, J, tEnd); T.all = &trace;
+    for (auto& e : trace) { T.pos = &e - &trace[0]; T.feed(e); outcome = verif::hashPod(e.idx, verif::hashPod(e.kind, outcome)); }
     T.finish();
 }
 static void driveTimeStepper(const Scn& sc, Fixture2& fx, TimeStepper& ts, Integrator& integ, Judge& J, uint64_t& outcome) {
